@@ -22,7 +22,9 @@ def suites(tier):
     else:
         nmax, mmax = 5, 3
     for cfg in product(algo=[1, 2], cs=[0, 1], fwd=[0, 1], pos=[0, 1], rep=[0], slab=[0]):
-        cfg.update(norm=0, pk=0, scheme=0, nmin=0, nmax=nmax, mmin=1, mmax=mmax, c16=0, c32=0)
+        # without positions the thorough tier stops one character earlier (same code up to the back-trace)
+        nm = nmax if (tier == "quick" or cfg["pos"] == 1) else nmax - 1
+        cfg.update(norm=0, pk=0, scheme=0, nmin=0, nmax=nm, mmin=1, mmax=mmax, c16=0, c32=0)
         jobs.append(dict(id=jid("fuzzy", cfg), func="zzH_C02_fuzzy", cfg=cfg))
     for cfg in product(kind=[0, 1, 2, 3, 4], cs=[0, 1], fwd=[0, 1], rep=[0]):
         cfg.update(norm=0, pos=0, slab=0, pk=0, scheme=0, nmin=0, nmax=nmax + 1, mmin=1, mmax=mmax, c16=0, c32=0)
@@ -41,6 +43,9 @@ def suites(tier):
         cfg.update(rep=3, norm=0, pos=0, slab=0, pk=2, scheme=0, nmin=tm, nmax=tn, mmin=tm, mmax=tm, c16=0, c32=0)
         jobs.append(dict(id=jid("exact-tiny", cfg), func="zzH_C02_exact", cfg=cfg))
     for cfg in product(algo=[1] if tier == "quick" else [1, 2], cs=[0], fwd=[0, 1], pos=[1]):
-        cfg.update(rep=3, norm=0, slab=0, pk=2, scheme=0, nmin=tn - 1, nmax=tn, mmin=2, mmax=tm, c16=0, c32=0)
+        if cfg["algo"] == 2:   # V2 is the expensive one: N <= 5, M <= 3
+            cfg.update(rep=3, norm=0, slab=0, pk=2, scheme=0, nmin=4, nmax=5, mmin=2, mmax=3, c16=0, c32=0)
+        else:
+            cfg.update(rep=3, norm=0, slab=0, pk=2, scheme=0, nmin=tn - 1, nmax=tn, mmin=2, mmax=tm, c16=0, c32=0)
         jobs.append(dict(id=jid("fuzzy-tiny", cfg), func="zzH_C02_fuzzy", cfg=cfg))
     return [dict(ALGO, name="algo", jobs=jobs)]
